@@ -6,5 +6,8 @@ import (
 	_ "verifh/props/c05"
 	_ "verifh/props/c06"
 	_ "verifh/props/c07"
+	_ "verifh/props/c08"
+	_ "verifh/props/c12"
+	_ "verifh/props/c13"
 	_ "verifh/props/c19"
 )
